@@ -6,7 +6,7 @@
 use crate::infra::*;
 use arrow::array::RecordBatch;
 use datafusion::execution::context::SessionContext;
-use datafusion::physical_plan::{ExecutionPlan, displayable};
+use datafusion::physical_plan::{ExecutionPlan, ExecutionPlanProperties, displayable};
 use datafusion::prelude::SessionConfig;
 use datafusion_common::DataFusionError;
 use datafusion_execution::disk_manager::{DiskManagerBuilder, DiskManagerMode};
@@ -199,6 +199,10 @@ async fn run_async(item: &Value, datasets: &Datasets, exec: &Value, out: &mut Va
             return Ok(());
         }
     };
+    let plan = match apply_wraps(plan, item.get("wrap")) {
+        Ok(p) => p,
+        Err(e) => return Err(format!("wrap: {e}")),
+    };
     let mut ops = vec![];
     plan_ops(&plan, &mut ops);
     out["plan_ops"] = json!(ops);
@@ -207,6 +211,7 @@ async fn run_async(item: &Value, datasets: &Datasets, exec: &Value, out: &mut Va
         out["plan"] = json!(displayable(plan.as_ref()).indent(false).to_string());
     }
     let task_ctx = ctx.task_ctx();
+    let plan_holder = Arc::clone(&plan);
     let max_rows = u(item, "max_rows_out", 64) as usize;
     let handle = tokio::runtime::Handle::current();
 
@@ -215,7 +220,10 @@ async fn run_async(item: &Value, datasets: &Datasets, exec: &Value, out: &mut Va
     let mode = s(exec, "poll", "stream").to_string();
     let drop_at = item.get("drop_at").and_then(|x| x.as_u64());
     let endless = item.get("endless").filter(|x| !x.is_null()).cloned();
-    if let Some(e) = endless {
+    if let Some(pc) = item.get("partial").filter(|x| !x.is_null()) {
+        // partial consumers: the output partitions are driven individually (see run_partial)
+        run_partial(pc, item, &ctx, &ctl, out).await?;
+    } else if let Some(e) = endless {
         run_endless(&e, Arc::clone(&plan), task_ctx, &ctl, out).await;
     } else if mode == "collect" && drop_at.is_none() {
         match datafusion::physical_plan::collect(Arc::clone(&plan), task_ctx).await {
@@ -295,6 +303,7 @@ async fn run_async(item: &Value, datasets: &Datasets, exec: &Value, out: &mut Va
     out["fired"] = json!(ctl.fired.load(AO::SeqCst));
 
     // ---- what is still held once the stream and the plan are gone
+    drop(plan_holder);
     drop(plan);
     let dm = Arc::clone(&env.disk_manager);
     let produced_at_drop = ctl.src_batches.load(AO::SeqCst);
@@ -469,4 +478,222 @@ async fn run_endless(e: &Value, plan: Arc<dyn ExecutionPlan>, task_ctx: Arc<data
             Ok(Err(er)) => err_report(out, &er),
         }
     }
+}
+
+
+// ------------------------------------------------------------------------------------------ physical wrappers
+
+/// Wrap the planned root in explicitly constructed physical operators (bottom-up list):
+/// {"op":"repartition","kind":"rr"|"hash","n":N,"col":"k"} | {"op":"local_limit","fetch":N} | {"op":"coalesce"} | {"op":"spm","col":"id"}
+fn apply_wraps(mut plan: Arc<dyn ExecutionPlan>, wraps: Option<&Value>) -> datafusion_common::Result<Arc<dyn ExecutionPlan>> {
+    use datafusion::physical_plan::coalesce_partitions::CoalescePartitionsExec;
+    use datafusion::physical_plan::limit::LocalLimitExec;
+    use datafusion::physical_plan::repartition::RepartitionExec;
+    use datafusion::physical_plan::sorts::sort_preserving_merge::SortPreservingMergeExec;
+    use datafusion::physical_plan::Partitioning;
+    use datafusion_physical_expr::expressions::col;
+    use datafusion_physical_expr_common::sort_expr::{LexOrdering, PhysicalSortExpr};
+    let Some(ws) = wraps.and_then(|w| w.as_array()) else { return Ok(plan) };
+    for w in ws {
+        let op = s(w, "op", "");
+        plan = match op {
+            "repartition" => {
+                let n = u(w, "n", 2) as usize;
+                let part = if s(w, "kind", "rr") == "hash" {
+                    Partitioning::Hash(vec![col(s(w, "col", "k"), &plan.schema())?], n)
+                } else {
+                    Partitioning::RoundRobinBatch(n)
+                };
+                Arc::new(RepartitionExec::try_new(plan, part)?)
+            }
+            "interleave" => {
+                // two hash repartitions (same keys, same count) of the same stateless subtree, interleaved partition-wise
+                use datafusion::physical_plan::union::InterleaveExec;
+                let n = u(w, "n", 2) as usize;
+                let mk = |p: &Arc<dyn ExecutionPlan>| -> datafusion_common::Result<Arc<dyn ExecutionPlan>> {
+                    Ok(Arc::new(RepartitionExec::try_new(Arc::clone(p), Partitioning::Hash(vec![col(s(w, "col", "k"), &p.schema())?], n))?))
+                };
+                Arc::new(InterleaveExec::try_new(vec![mk(&plan)?, mk(&plan)?])?)
+            }
+            "local_limit" => Arc::new(LocalLimitExec::new(plan, u(w, "fetch", 1) as usize)),
+            "coalesce" => Arc::new(CoalescePartitionsExec::new(plan)),
+            "spm" => {
+                let e = PhysicalSortExpr::new(col(s(w, "col", "id"), &plan.schema())?, Default::default());
+                Arc::new(SortPreservingMergeExec::new(LexOrdering::new(vec![e]).expect("ordering"), plan))
+            }
+            o => return Err(DataFusionError::Internal(format!("unknown wrap {o}"))),
+        };
+    }
+    Ok(plan)
+}
+
+// ------------------------------------------------------------------------------------------ partial consumers
+
+fn bag_of(batches: &[RecordBatch]) -> (usize, String) {
+    let rows = sqlexec::batches_to_rows(batches);
+    let mut bag: u64 = 0;
+    for r in &rows {
+        let h = hash_str(&r.to_string());
+        bag = bag.wrapping_add(h.wrapping_mul(0x9E3779B97F4A7C15) ^ (h >> 7));
+    }
+    (rows.len(), format!("{bag:016x}"))
+}
+
+/// One repetition: execute every output partition of a freshly planned query separately, poll partition p up to
+/// polls[p] batches while the faulty source is parked right before its fault, drop the partitions in `drop`
+/// (before the gate opens, or after the fault fired), then drain the survivors concurrently.
+async fn partial_rep(pc: &Value, item: &Value, ctx: &SessionContext, ctl: &Arc<Ctl>, reference: bool) -> Result<Value, String> {
+    use futures::FutureExt;
+    ctl.fired.store(false, AO::SeqCst);
+    ctl.fault_disabled.store(reference, AO::SeqCst);
+    ctl.gate_open.store(false, AO::SeqCst);
+    ctl.gate_wakers.lock().clear();
+    ctl.gate_on.store(!reference, AO::SeqCst);
+    let sql = item["sql"].as_str().ok_or("sql missing")?;
+    let plan = async {
+        let df = ctx.sql(sql).await?;
+        df.create_physical_plan().await
+    }
+    .await
+    .map_err(|e| format!("plan: {e}"))?;
+    let plan = apply_wraps(plan, item.get("wrap")).map_err(|e| format!("wrap: {e}"))?;
+    let n = plan.output_partitioning().partition_count();
+    let task_ctx = ctx.task_ctx();
+    let mut streams: Vec<Option<datafusion_execution::SendableRecordBatchStream>> = vec![];
+    for p in 0..n {
+        streams.push(Some(plan.execute(p, Arc::clone(&task_ctx)).map_err(|e| format!("execute({p}): {e}"))?));
+    }
+    let mut got: Vec<Vec<RecordBatch>> = vec![vec![]; n];
+    let mut end: Vec<&str> = vec!["live"; n];
+    let polls: Vec<u64> = (0..n).map(|p| pc["polls"].get(p % pc["polls"].as_array().map(|a| a.len()).unwrap_or(1).max(1)).and_then(|x| x.as_u64()).unwrap_or(0)).collect();
+    let drops: Vec<usize> = if reference { vec![] } else { pc["drop"].as_array().map(|a| a.iter().filter_map(|x| x.as_u64()).map(|x| x as usize).filter(|x| *x < n).collect()).unwrap_or_default() };
+    let when_after = s(pc, "when", "before") == "after";
+    let mut before: Vec<usize> = vec![0; n];
+
+    // one non-blocking poll of every live partition that still wants batches; returns whether anything arrived
+    macro_rules! poll_round {
+        ($want:expr) => {{
+            let mut any = false;
+            for p in 0..n {
+                if end[p] != "live" || !$want(p, got[p].len() as u64) {
+                    continue;
+                }
+                if let Some(st) = streams[p].as_mut() {
+                    match st.next().now_or_never() {
+                        Some(Some(Ok(b))) => {
+                            progress();
+                            any = true;
+                            if b.num_rows() > 0 {
+                                got[p].push(b);
+                            }
+                        }
+                        Some(Some(Err(_))) => {
+                            any = true;
+                            end[p] = "err";
+                        }
+                        Some(None) => {
+                            any = true;
+                            end[p] = "eos";
+                        }
+                        None => {}
+                    }
+                }
+            }
+            any
+        }};
+    }
+    if !reference {
+        // phase 1: poll up to polls[p] batches per partition (the faulty source is parked at the gate)
+        let mut idle = 0;
+        while idle < 40 {
+            let any = poll_round!(|p: usize, have: u64| have < polls[p]);
+            if (0..n).all(|p| end[p] != "live" || got[p].len() as u64 >= polls[p]) {
+                break;
+            }
+            idle = if any { 0 } else { idle + 1 };
+            tokio::task::yield_now().await;
+            tokio::time::sleep(Duration::from_micros(200)).await;
+        }
+        for p in 0..n {
+            before[p] = got[p].len();
+        }
+        if when_after {
+            // let the fault fire first (survivors and victims keep being polled so that back-pressure cannot block the input)
+            ctl.open_gate();
+            let mut rounds = 0;
+            while !ctl.fired.load(AO::SeqCst) && rounds < 4000 {
+                poll_round!(|_p: usize, _h: u64| true);
+                rounds += 1;
+                tokio::task::yield_now().await;
+                tokio::time::sleep(Duration::from_micros(200)).await;
+            }
+        }
+        for p in &drops {
+            if end[*p] == "live" {
+                end[*p] = "dropped";
+            }
+            streams[*p] = None; // drop the output partition stream
+        }
+        if !when_after {
+            // give the runtime a few turns so that the drop is visible to the exchange, then let the fault fire
+            for _ in 0..5 {
+                tokio::task::yield_now().await;
+            }
+            ctl.open_gate();
+        }
+    }
+    // drain the survivors concurrently
+    let mut futs = vec![];
+    for p in 0..n {
+        if end[p] != "live" {
+            continue;
+        }
+        let mut st = streams[p].take().unwrap();
+        futs.push(async move {
+            let mut bs = vec![];
+            let r = std::panic::AssertUnwindSafe(async {
+                loop {
+                    match st.next().await {
+                        None => return "eos",
+                        Some(Ok(b)) => {
+                            progress();
+                            bs.push(b)
+                        }
+                        Some(Err(_)) => return "err",
+                    }
+                }
+            })
+            .catch_unwind()
+            .await
+            .unwrap_or("panic");
+            drop(st);
+            (p, r, bs)
+        });
+    }
+    for (p, r, bs) in futures::future::join_all(futs).await {
+        end[p] = r;
+        got[p].extend(bs);
+    }
+    drop(streams);
+    drop(plan);
+    let parts: Vec<Value> = (0..n)
+        .map(|p| {
+            let (nr, bag) = bag_of(&got[p]);
+            json!({"end": end[p], "rows": nr, "bag": bag, "polled_before": before[p]})
+        })
+        .collect();
+    Ok(json!({"fired": ctl.fired.load(AO::SeqCst), "parts": parts}))
+}
+
+async fn run_partial(pc: &Value, item: &Value, ctx: &SessionContext, ctl: &Arc<Ctl>, out: &mut Value) -> Result<(), String> {
+    let reference = partial_rep(pc, item, ctx, ctl, true).await?;
+    let reps = u(pc, "reps", 20);
+    let mut rs = vec![];
+    for _ in 0..reps {
+        rs.push(partial_rep(pc, item, ctx, ctl, false).await?);
+    }
+    out["outcome"] = json!("partial");
+    out["reference"] = reference;
+    out["reps"] = Value::Array(rs);
+    Ok(())
 }
